@@ -334,15 +334,16 @@ theorem augment_reported_phase (R : Res) (order : List Nat) (fuel : Nat) (s : PS
       ∃ er ∈ allErrs (phaseR R order fuel s).1.forest, er.cls = "duplicate-node") :=
   phase_reported R order fuel s hn hcov hfuel hpres
 
-/-- For `processAll` itself.  Either it stops before the augment phase, with errors; or it runs the
-augment phase from some error-free forest `s.forest` with pending table `s.pending` and module
-order `order`, and then — provided what reaches the phase is well formed (`PhaseInput`: plain
-augment paths, no augment entry twice, every tree with augments visited and present, one row per
-tree) — every pending augment is applied (by the loop, or by the leftover pass) or `processAll`
-returns errors, and a colliding application makes `processAll` return errors. -/
+/-- For `processAll` itself.  `phaseStart reg opts plug` is the state and module order with which
+`processAll` enters the augment phase (`none`: it stops before, with errors from linking,
+identities, typedefs or conversion).  From that state — provided what reaches the phase is well
+formed (`PhaseInput`: plain augment paths, no augment entry twice, every tree with augments
+visited and present, one row per tree) — every pending augment is applied (by the loop, or by the
+leftover pass) or `processAll` returns errors, and a colliding application makes `processAll`
+return errors. -/
 theorem augment_reported (reg : Registry) (opts : Opts) (plug : Plug) :
-    (∃ errs, errs ≠ [] ∧ (processAll reg opts plug).errors = canonErrs errs) ∨
-    ∃ (s : PState) (order : List Nat), allErrs s.forest = [] ∧
+    (phaseStart reg opts plug = none → ∃ errs, errs ≠ [] ∧ (processAll reg opts plug).errors = canonErrs errs) ∧
+    (∀ s order, phaseStart reg opts plug = some (s, order) → allErrs s.forest = [] ∧
       (PhaseInput reg s order →
         let fuel := s.pending.foldl (fun n p => n + p.2.length) 0 + 2
         let ph := phaseR (Res.ofReg reg) order fuel s
@@ -351,8 +352,16 @@ theorem augment_reported (reg : Registry) (opts : Opts) (plug : Plug) :
         (∀ ev ∈ ph.2.1,
           (¬ (absEv (Res.ofReg reg) s.forest ev).roots.Nodup ∨
             (absEv (Res.ofReg reg) s.forest ev).Collides (viewOf ev.before)) →
-          (processAll reg opts plug).errors ≠ [])) :=
-  processAll_reported reg opts plug
+          (processAll reg opts plug).errors ≠ []))) :=
+  processAll_reported_pinned reg opts plug
+
+/-- `phaseStart` is where `processAll` enters the augment phase: what `processAll` returns is the
+error sweep after `augmentPhase` run from there (plus the errors of the deviations). -/
+theorem phaseStart_is_processAll (reg : Registry) (opts : Opts) (plug : Plug) (s : PState) (order : List Nat)
+    (h : phaseStart reg opts plug = some (s, order)) :
+    ∃ derrs, (processAll reg opts plug).errors =
+      canonErrs (allErrs (augmentPhase reg order (s.pending.foldl (fun n p => n + p.2.length) 0 + 2) s).forest ++ derrs) :=
+  ((processAll_phaseStart reg opts plug).2 s order h).2
 
 /-! ### non-vacuity: the hypotheses hold, and the conclusions say something, on concrete inputs
 
